@@ -8,6 +8,7 @@ Wall-clock budgets only truncate how many cases are evaluated (reported as
 from __future__ import annotations
 
 import collections
+import os
 import random
 import time
 import traceback
@@ -85,14 +86,35 @@ class Recorder:
     }
 
 
+class _Violated(Exception):
+  """Raised by the Hypothesis test body for a recorded property violation (never by code under test)."""
+
+
+def _raised_below_code_under_test(tb) -> bool:
+  """True if the exception was raised beneath a call from the harness into the repository's code."""
+  repo = os.path.realpath(os.environ.get('VERIF_REPO', '/repo'))
+  here = os.path.dirname(os.path.realpath(__file__))
+  last_harness, last_repo = -1, -1
+  for i, fs in enumerate(traceback.extract_tb(tb)):
+    fn = os.path.realpath(fs.filename)
+    if fn.startswith(here):
+      last_harness = i
+    elif fn.startswith(repo + os.sep):
+      last_repo = i
+  return last_repo > last_harness
+
+
 def _safe_run(sub: core.Subcheck, case):
-  if sub.raises_are_violations:
-    try:
-      return sub.run(case)
-    except Exception as e:   # pylint: disable=broad-except
-      tb = traceback.format_exc(limit=6)
-      return core.Outcome(ok=False, detail={'raised': repr(e)[:500], 'traceback': tb[-1500:]})
-  return sub.run(case)
+  """Runs a case. Exceptions raised from inside the code under test on a generated (admissible) input are
+  violations ('raised instead of returning'); exceptions raised by harness code itself are harness errors."""
+  try:
+    return sub.run(case)
+  except Exception as e:   # pylint: disable=broad-except
+    if sub.raises_are_violations or _raised_below_code_under_test(e.__traceback__):
+      tb = traceback.format_exc(limit=-8)
+      return core.Outcome(ok=False, detail={'what': 'code under test raised on an admissible input',
+                                            'raised': repr(e)[:500], 'traceback': tb[-2000:]})
+    raise
 
 
 def drive_enumeration(sub: core.Subcheck, tier: str, seed: int, shard: int, nshards: int):
@@ -150,11 +172,11 @@ def drive_hypothesis(sub: core.Subcheck, tier: str, seed: int, shard: int, nshar
     if not out.ok and not out.known:
       if state['first_fail'] is None:
         state['first_fail'] = time.time()
-      raise AssertionError('property violated')
+      raise _Violated('property violated')
 
   try:
     test()
-  except AssertionError:
+  except _Violated:
     pass
   except BaseException as e:   # Flaky / FlakyFailure / exception groups after the budget cut
     if not rec.failures:
